@@ -138,6 +138,10 @@ func genC02(t *rapid.T) *C02Case {
 		}
 	}
 
+	// variables that only change how things are shown: typed text must come
+	// back the same under any of them
+	c.Vars = append(c.Vars, genDisplayVars(t)...)
+
 	// chunking
 	nb := len(c.Text)
 
